@@ -41,7 +41,7 @@ D3 == {TOpt(a) : a \in D2Sample} \cup {TTup(<<a, b>>) : a \in D2Sample, b \in D2
 Aliases == {BuiltinAlias(a) : a \in BuiltinAliasNames}
 
 TypeU == LeafAll \cup D1 \cup D2 \cup D3 \cup Aliases
-         \cup {TTup([i \in 1..k |-> IF i % 3 = 0 THEN TU(1) ELSE IF i % 3 = 1 THEN TU(8) ELSE TBool]) : k \in 4..(IF Thorough THEN 20 ELSE 9)}
+         \cup {TTup([i \in 1..k |-> IF i % 3 = 0 THEN TU(1) ELSE IF i % 3 = 1 THEN TU(8) ELSE TBool]) : k \in 4..(IF Thorough THEN 11 ELSE 9)}
 
 VARIABLES phase, ty, val
 vars == <<phase, ty, val>>
